@@ -44,7 +44,7 @@ def combo_name(c):
 
 def compile_one(job):
     cxx, std, variant, combo, witness = job
-    cmd = [cxx, '-std=' + std, '-fsyntax-only', '-I' + facts.WITNESS_DIR] + facts.variant_flags(variant) + \
+    cmd = [cxx, '-std=' + std, '-fsyntax-only', '-I' + facts.WITNESS_DIR] + (['-fno-crash-diagnostics'] if cxx.startswith('clang') else []) + facts.variant_flags(variant) + \
         ['-D' + s + '=' for s in combo] + REPO_FLAGS + [os.path.join(facts.WITNESS_DIR, witness + '.cpp')]
     if cxx.startswith('clang'):
         cmd.insert(1, '-ferror-limit=3')
